@@ -317,7 +317,10 @@ def _run_impl(case, obs):
     elif case["mapping"] == "custom" and (kw.get("vdims") or (case["labels"] == "default" and nv > 1)):
         keys = kw.get("vdims") or (["x", "y", "z"][:nv] if nv <= 3 else [f"v{i}" for i in range(nv)])
         pool = dims + ["k_" + dims[0], "q"]
-        kw["vdim_mapping"] = {kk: rng.choice(pool) for kk in keys}
+        order = list(keys)
+        if rng.random() < 0.5:
+            rng.shuffle(order)          # the caller's dict need not list the labels in the order of vdims
+        kw["vdim_mapping"] = {kk: rng.choice(pool) for kk in order}
     arr = ints((*nlist, nv), case["cplx"])
     f = df.Field(m, nvdim=nv, value=arr, unit=case["unit"], **kw)
     snap = f.array.copy()
